@@ -145,6 +145,20 @@ structure Stats where
   tokensAfterExpiry : Nat := 0
   jwksAfterExpiry : Nat := 0
   reloadsRefusedExpired : Nat := 0
+  -- one key under several ids: tokens whose id is a later id of a key the signer's store lists several times, key-set
+  -- reads that show some key under several ids
+  tokensLaterId : Nat := 0
+  jwksSharedKey : Nat := 0
+
+/-- the JWK with the id `kid` stands in `pub` behind a JWK with the same public key: `kid` is a later id of a key that
+the store lists more than once -/
+def laterIdOfSharedKey (pub : List Jwk) (kid : String) : Bool :=
+  match pub.span (fun j => j.kid ≠ kid) with
+  | (pre, j :: _) => pre.any (fun j0 => decide (j0.pub = j.pub))
+  | _ => false
+
+/-- some key material is published under more than one id -/
+def sharedKeyListed (pub : List Jwk) : Bool := decide ((distinctKeys pub).length < pub.length)
 
 /-- some published key carries a certificate that is outside its validity period at `now` -/
 def expiredPublished (ci : CertInfo) (now : Int) (pub : List Jwk) : Bool :=
@@ -253,6 +267,7 @@ def signOp (ci : CertInfo) (pol : KeyPolicy) (keys : Array PrivKey) (hs : Array 
   pure (res, { stats with tokens := stats.tokens + 1, reservedNamed := stats.reservedNamed + named,
                           tokensAfterExpiry := stats.tokensAfterExpiry + (if expiredPublished ci clock pub then 1 else 0),
                           clashes := stats.clashes + (if vf then 0 else 1),
+                          tokensLaterId := stats.tokensLaterId + (if laterIdOfSharedKey stAfter.pubKeys tok.kid then 1 else 0),
                           fractionalTtl := stats.fractionalTtl + (if fin.ttlNs % 1000000000 = 0 then 0 else 1),
                           algs := if stats.algs.contains tok.alg then stats.algs else stats.algs ++ [tok.alg] }, cs, hs')
 
@@ -286,6 +301,8 @@ def run (c : Json) : E Json := do
       stats := { stats with jwksReads := stats.jwksReads + 1,
                             jwksAfterExpiry := stats.jwksAfterExpiry +
                               (if expiredPublished ci (opNow op) (publishedAt ci ((live hs).map (·.st)) (opNow op)) then 1 else 0),
+                            jwksSharedKey := stats.jwksSharedKey +
+                              (if (live hs).any (fun h => sharedKeyListed h.st.pubKeys) then 1 else 0),
                             publishedKeys := stats.publishedKeys + (publishedAt ci ((live hs).map (·.st)) (opNow op)).length }
       out := out ++ [jwksJson ci (opNow op) hs]
     | "alg" =>
@@ -318,6 +335,8 @@ def run (c : Json) : E Json := do
     ("tokens_after_certificate_expiry", jnat stats.tokensAfterExpiry),
     ("jwks_reads_after_certificate_expiry", jnat stats.jwksAfterExpiry),
     ("reloads_refused_for_expired_certificate", jnat stats.reloadsRefusedExpired),
+    ("tokens_naming_later_id_of_shared_key", jnat stats.tokensLaterId),
+    ("jwks_reads_with_key_under_several_ids", jnat stats.jwksSharedKey),
     ("holders_created", jnat (live hs).length), ("holders_failed", jnat (hs.size - (live hs).length)),
     ("cache_cases", jnat (if cs.on then 1 else 0)), ("cache_hits", jnat cs.hits), ("cache_misses", jnat cs.misses),
     ("cache_stores", jnat cs.stores), ("cache_cross_variant_misses", jnat cs.crossVariantMisses),
